@@ -86,6 +86,8 @@ class Report:
             "queries_machinery_error": len(mach),
             "solver": "cbmc 6.11.0 --sat-solver cadical, --unwinding-assertions",
             "solver_wall_s_sum": round(total_solver, 1),
+            "slowest_queries": [{"query": r["name"], "wall_s": round(r.get("wall", 0.0), 1)}
+                                for r in sorted(self.results, key=lambda r: -r.get("wall", 0.0))[:8]],
             "bounds": bounds,
             "functions_encoded": sorted(functions),
             "known_findings_reported": [l for l in self.known_lines],
@@ -96,6 +98,8 @@ class Report:
         core.write_evidence(self.pid, self.tier, self.level, cov, assumptions, wall, len(viol))
         core.log("SUMMARY property=%s tier=%s queries=%d held=%d violated=%d inconclusive=%d machinery=%d wall=%.0fs" % (
             self.pid, self.tier, len(self.results), len(held), len(viol), len(inc), len(mach), wall))
+        core.log("TIMING slowest: " + ", ".join("%s %.0fs" % (r["name"], r.get("wall", 0.0))
+                                                 for r in sorted(self.results, key=lambda r: -r.get("wall", 0.0))[:6]))
         if viol:
             return 1
         if mach:
